@@ -275,10 +275,14 @@ def coq_eval(prop, name, text, timeout=600):
 
 # ------------------------------------------------------------ known findings
 def load_known():
+    """known findings = known_findings.json + known_findings.d/*.json (read-only at run time)"""
+    out = []
     p = os.path.join(VERIF, "known_findings.json")
-    if not os.path.exists(p):
-        return []
-    return json.load(open(p))
+    if os.path.exists(p):
+        out += json.load(open(p))
+    for f in sorted(glob.glob(os.path.join(VERIF, "known_findings.d", "*.json"))):
+        out += json.load(open(f))
+    return out
 
 
 def match_known(prop, sig, known):
